@@ -14,6 +14,8 @@ closest_listb, proved to accept exactly the model's list) are run on the same in
   queryx  query() / query_parse() / `gambit query` through their other call forms, containers, database
           forms, inputs and output formats (see table)
   queryenv whole queries + CLI export in sub-processes per CPU-dispatch / OpenMP-thread environment
+  multidb sequences of query() / query_parse() / get_result_item() / `gambit query` calls over SEVERAL databases of
+          different sizes, all with the caller's one QueryParams / keyword dict / inputs / signatures / row buffer
 
 Observables: the list of (reference index, float32 bit pattern of the distance, matched taxon),
 the closest match, CSV closest.description, JSON closest_genomes[0].  Model inputs (distance
@@ -22,7 +24,8 @@ keys, taxonomy tables, reference order) come from the harness's own generated st
 Coverage audit (item of the property text -> stream(s) driving the IMPLEMENTATION; P = full predicate
 judged there: checker-accepted prefix, exact distance, taxon, head = closest_match, repeat-identical):
 
-  clause  length min(N, #refs)             witness, exhaustive-rows, random-rows*, rowx-forms, query, queryx  P
+  clause  length min(N, #refs)             witness, exhaustive-rows, random-rows*, rowx-forms, query, queryx; multidb (N held
+                                           in a reused object, #refs changing from call to call)  P
   clause  (distance, reference order)      all row streams (ties inside / straddling N), query, queryx, queryenv  P
   clause  exact distance                   all row streams (float32 bits); rowx-forms f64 rows (double bits); CLI JSON/archive
                                            `distance` and CSV closest.distance in queryx, queryenv  P
@@ -50,6 +53,14 @@ judged there: checker-accepted prefix, exact distance, taxon, head = closest_mat
                                            negative stride, unaligned, read-only, ndarray sub-class
   api     reuse of caller objects          rowseq: same db + same QueryParams (report_closest reassigned) + same buffer
                                            (overwritten in place); queryx 'shared' params across calls
+  api     caller objects across databases  multidb: ONE QueryParams, ONE **kw dict, ONE inputs / file_labels / files list, ONE
+                                           signatures object (SignatureList / SignatureArray / list / tuple / uint64 / HDF5 file)
+                                           and ONE row buffer used on 2-4 databases with fewer than N, exactly N and more than N
+                                           references (ascending, descending, large-small-large, interleaved with revisits; N
+                                           reassigned by the caller in between) through query() (params / inputs= / **kw),
+                                           query_parse() (params + file_labels / **kw), get_result_item(), `gambit query`, bare query(db, sigs) (N = 10);
+                                           every step: length min(N the caller set, #refs of THAT database) + P, exporters on some
+                                           results, earlier results unchanged, caller's objects equal to copies taken before the call
   api     query(): params / **kw / inputs= / progress=None; query_parse(): params + file_labels / **kw, parse_kw
           concurrency None / threads / processes; classify_strict (API) and --strict / --no-strict (CLI)   queryx
   channel CSV, JSON, archive (-f), -d and $GAMBIT_DB_PATH, -s / files / -l                      queryx
@@ -82,8 +93,18 @@ RULE = ('row/rowenv: (N, [(float32 distance, taxon)], taxonomy) -> get_result_it
         '-s / files / -l; --cores; --strict; -d / GAMBIT_DB_PATH): every list = the model list for its N, CSV '
         'closest.description / closest.distance = JSON closest_genomes[0] = archive closest_genomes[0] = archive '
         'closest_match.  queryenv: such databases queried and exported in sub-processes under each NPY_DISABLE_CPU_FEATURES '
-        '/ OMP_NUM_THREADS setting: same lists as the model in every environment.  non-trivial: at least two '
-        'references and a tie of distances inside or at the boundary of the reported prefix')
+        '/ OMP_NUM_THREADS setting: same lists as the model in every environment.  multidb: 2-4 generated databases over '
+        'one taxonomy with fewer than N, exactly N and more than N references (identical / equidistant ones included) '
+        'visited in ascending, descending, large-small-large or interleaved order (with revisits) by 2-9 calls -- query() via '
+        'params / inputs= / **kw, query_parse() via params + file_labels / **kw, get_result_item() on the harness\'s own '
+        'distance row, `gambit query`, query() with no parameters at all (N = the documented default 10) -- that ALL receive the caller\'s one QueryParams instance, one keyword dict, one inputs / '
+        'labels / files list, one signatures object and one row buffer; the caller may reassign N between calls: every '
+        'step must list min(N the caller set, #references of the database of that step) genomes = the model list for that '
+        'database and N, results of earlier steps must not change, and the caller\'s objects must equal the copies taken '
+        'before the call (a modified object without a wrong list is reported as a broken correspondence).  '
+        'non-trivial: at least two '
+        'references and a tie of distances inside or at the boundary of the reported prefix (multidb: at least two calls '
+        'and an N above the size of one visited database and not above the size of another)')
 TRUSTED = ['NumPy: np.argsort(kind="stable") is a stable sort by value and np.argmin returns the first minimum '
            '(modelled as merge sort on (distance, index) / left-to-right scan; sampled on every case)',
            'NumPy-1 scalar comparison float32 <= Python float is done in double precision (modelled on 64-bit keys)',
@@ -92,7 +113,11 @@ TRUSTED = ['NumPy: np.argsort(kind="stable") is a stable sort by value and np.ar
            'queryx/queryenv: the Jaccard distance of two k-mer sets is the binary32 quotient (|A u B| - |A n B|) / |A u B| '
            '(C02/C05 tie this to the kernel); the k-mer set of a FASTA query file is found by the harness\'s own two-strand '
            'prefix search (C01 ties it to gambit); csv.DictReader / json.load read back what the exporters wrote',
-           'an N beyond 4096 is sent to the (unary) extracted model as #refs + 1, which selects the same prefix (C09_length)']
+           'an N beyond 4096 is sent to the (unary) extracted model as #refs + 1, which selects the same prefix (C09_length)',
+           'multidb: the model is evaluated per step on (N the caller set, that step\'s database) -- calls are independent in '
+           'the model, which has no state; attr.astuple / == on str, dict, SequenceFile, QueryInput and ndarray.tobytes() '
+           'detect a change of the caller\'s objects; the parse_kw dict (in which query_parse itself stores its progress '
+           'setting) and the `progress` argument are reused but not compared']
 ASSUMPTIONS = ['distances are finite, non-negative, not NaN and not -0.0 (Jaccard distances lie in [0,1])',
                'every reference genome has a taxon; the taxonomy is a forest (acyclic parent pointers)',
                'report_closest N >= 1; the distance row has one entry per reference genome',
@@ -101,7 +126,7 @@ ASSUMPTIONS = ['distances are finite, non-negative, not NaN and not -0.0 (Jaccar
                'rowx f64 rows: distances are finite non-negative doubles (a caller-supplied row; query() itself only '
                'produces float32 rows)',
                'databases have k >= 5 (signatures narrower than 16 bits are refused by the distance kernel)']
-CORRESPONDENCES = ['row', 'rowenv', 'query', 'rowx', 'rowseq', 'queryx', 'queryenv']
+CORRESPONDENCES = ['row', 'rowenv', 'query', 'rowx', 'rowseq', 'queryx', 'queryenv', 'multidb']
 BATCH = 400
 
 AVX512 = 'AVX512F AVX512CD AVX512_SKX AVX512_CLX AVX512_CNL AVX512_ICL'
@@ -1031,14 +1056,15 @@ def cli_outputs(d, cfg, files, tag):
 	return outs
 
 
-def judge_cli(ctx, kind, case, outs, exp, descs, where):
+def judge_cli(ctx, kind, case, outs, exp, descs, where, report=None):
 	"""CSV / JSON / archive of one CLI configuration against each other and against the model's N=10 list.
-	-> True when a violation was reported"""
+	-> True when a violation was reported (naming `report`, the enclosing multi-step case, when given)"""
+	rep = case if report is None else report
 	import numpy as np
 	tkey = lambda t: None if t is None else int(t['key'][1:])
 	nq = len(case['queries'])
 	if not (len(outs['csv']) == len(outs['json']) == len(outs['archive']) == nq):
-		ctx.violation(kind, case, f'CLI{where}: {len(outs["csv"])} CSV rows / {len(outs["json"])} JSON items / '
+		ctx.violation(kind, rep, f'CLI{where}: {len(outs["csv"])} CSV rows / {len(outs["json"])} JSON items / '
 		              f'{len(outs["archive"])} archive items for {nq} queries')
 		return True
 	for qi in range(nq):
@@ -1054,21 +1080,21 @@ def judge_cli(ctx, kind, case, outs, exp, descs, where):
 		      tkey(am['matched_taxon'])]
 		vals = dict(csv=dict(crow), json=jl, archive=al, archive_match=am, model=None if exp is None else exp[qi])
 		if not jd or jd[0] != cd:
-			ctx.violation(kind, case, f'CLI query #{qi}{where}: CSV closest.description = {cd!r} but JSON closest_genomes[0] = {jd[:1]}', **vals)
+			ctx.violation(kind, rep, f'CLI query #{qi}{where}: CSV closest.description = {cd!r} but JSON closest_genomes[0] = {jd[:1]}', **vals)
 			return True
 		if jl != al:
-			ctx.violation(kind, case, f'CLI query #{qi}{where}: JSON closest_genomes {[e[0] for e in jl][:12]} differs from the archive\'s '
+			ctx.violation(kind, rep, f'CLI query #{qi}{where}: JSON closest_genomes {[e[0] for e in jl][:12]} differs from the archive\'s '
 			              f'{[e[0] for e in al][:12]} (same command, same input)', **vals)
 			return True
 		if not al or al[0] != am:
-			ctx.violation(kind, case, f'CLI query #{qi}{where}: archive closest_genomes[0] = {al[:1]} but classifier closest_match = {am}', **vals)
+			ctx.violation(kind, rep, f'CLI query #{qi}{where}: archive closest_genomes[0] = {al[:1]} but classifier closest_match = {am}', **vals)
 			return True
 		try:
 			cbits = f32_bits(np.float32(float(crow['closest.distance'])))
 		except ValueError:
 			cbits = crow['closest.distance']
 		if cbits != jl[0][1]:
-			ctx.violation(kind, case, f'CLI query #{qi}{where}: CSV closest.distance {crow["closest.distance"]!r} is not the distance '
+			ctx.violation(kind, rep, f'CLI query #{qi}{where}: CSV closest.distance {crow["closest.distance"]!r} is not the distance '
 			              f'of JSON closest_genomes[0] (float32 bits {jl[0][1]})', **vals)
 			return True
 		if exp is None:
@@ -1077,11 +1103,11 @@ def judge_cli(ctx, kind, case, outs, exp, descs, where):
 		if jl != e['closest'] or am != e['match']:
 			what = ('is not the (distance, reference order) prefix' if [x[0] for x in jl] != [x[0] for x in e['closest']]
 			        else 'does not carry the exact distances / the taxa the distance alone assigns')
-			ctx.violation(kind, case, f'CLI query #{qi}{where}: JSON closest_genomes {[x[0] for x in jl][:12]} {what}; expected '
+			ctx.violation(kind, rep, f'CLI query #{qi}{where}: JSON closest_genomes {[x[0] for x in jl][:12]} {what}; expected '
 			              f'{[x[0] for x in e["closest"]][:12]} / match {e["match"][0]}', **vals)
 			return True
 		if cd != descs[e['match'][0]] or jd != [descs[x[0]] for x in e['closest']]:
-			ctx.violation(kind, case, f'CLI query #{qi}{where}: descriptions {cd!r} / {jd[:6]} are not those of the expected genomes '
+			ctx.violation(kind, rep, f'CLI query #{qi}{where}: descriptions {cd!r} / {jd[:6]} are not those of the expected genomes '
 			              f'{[x[0] for x in e["closest"]][:6]}', **vals)
 			return True
 	return False
@@ -1177,6 +1203,258 @@ def k_queryx(ctx, cases):
 			db = None
 			gc.collect()
 			shutil.rmtree(d, ignore_errors=True)
+
+
+# ---------------------------------------------------------------------------------------------
+# caller-owned objects reused across SEVERAL databases of different sizes (multidb)
+
+MCALLS = ['params', 'inputs', 'kw', 'kwinputs', 'default', 'parse', 'parsekw', 'item', 'cli']
+MQFORMS = ['siglist', 'sigarray', 'list', 'tuple', 'u64', 'hdf5']
+
+
+def db_case(case, i):
+	"""the query-kind case (database #i of the multi-database case + the shared queries) build_db / model_lists expect"""
+	db = case['dbs'][i]
+	return dict(k=case['k'], taxa=case['taxa'], queries=case['queries'], refs=db['refs'], sqlorder=db.get('sqlorder'),
+	            idattr=case.get('idattr', 'refseq_acc'), dbform=db.get('dbform', 'dir'), extras=db.get('extras'))
+
+
+def check_multidb_case(case):
+	if not case['dbs'] or not case['steps'] or not case['queries']:
+		raise ValueError('empty')
+	if case['n'] < 1 or case.get('qform', 'siglist') not in MQFORMS or case.get('idattr', 'refseq_acc') not in IDATTRS:
+		raise ValueError('n / qform / idattr')
+	if case.get('chunk') is not None and case['chunk'] < 1:
+		raise ValueError('chunk')
+	for i, db in enumerate(case['dbs']):
+		check_queryx_case(db_case(case, i))
+	for st in case['steps']:
+		if not (0 <= st['db'] < len(case['dbs'])) or st['call'] not in MCALLS or (st.get('n') is not None and st['n'] < 1):
+			raise ValueError('step')
+
+
+def step_ns(case):
+	"""per step the N the CALLER has set when the step runs (the CLI, and a call that names no N at all, ask for the
+	documented default 10)"""
+	cur, out = case['n'], []
+	for st in case['steps']:
+		if st.get('n') is not None:
+			cur = st['n']
+		out.append(10 if st['call'] in ('cli', 'default') else cur)
+	return out
+
+
+def _sig_snapshot(sigs):
+	import numpy as np
+	return [(str(np.asarray(sigs[i]).dtype), np.asarray(sigs[i]).tobytes()) for i in range(len(sigs))]
+
+
+def impl_multidb(case, dirs, dbs, files, rows):
+	"""run the case's steps in order on ONE QueryParams object, ONE dict of keyword arguments, ONE list of inputs /
+	file labels / files, ONE signatures object and ONE row buffer, whatever database the step addresses.
+	-> (per step dict(obs=[observation per query] | 'error:...', res=results object or None, mutated=[what the call changed
+	in the caller's objects], held=the shared QueryParams' report_closest after the call), late=[(step, observations of that
+	step's retained results after all other steps)])"""
+	import copy
+	import attr
+	import numpy as np
+	from gambit.query import query, query_parse, get_result_item, QueryParams, QueryInput
+	from gambit.seq import SequenceFile
+	from gambit.kmers import KmerSpec
+	kspec = KmerSpec(case['k'], 'AT')
+	nq = len(case['queries'])
+	params = QueryParams(report_closest=case['n'], chunksize=case.get('chunk'), classify_strict=False)
+	kwargs = dict(report_closest=case['n'], chunksize=case.get('chunk'))
+	inputs = [f'in {i}' for i in range(nq)]
+	labels = [f'label {i}' for i in range(nq)]
+	sfiles = [SequenceFile(p, 'fasta') for p in files]
+	parse_kw = dict(concurrency=None)         # query_parse() itself stores its progress setting in here: reused, not judged
+	qinputs = [QueryInput(f'item {i}') for i in range(nq)]
+	sigs = query_form(actual_queries(case, False), case.get('qform', 'siglist'), kspec, dirs[0])
+	buf = np.empty(max(len(db['refs']) for db in case['dbs']), dtype=np.float32)
+	gidx = [{g.genome.key: i for i, g in enumerate(db.genomes)} for db in dbs]
+
+	def observe(items, di):
+		om = lambda m: [gidx[di][m.genome.genome.key], f32_bits(float(m.distance)) if np.float32(m.distance) == m.distance else repr(m.distance),
+		                None if m.matched_taxon is None else int(m.matched_taxon.key[1:])]
+		return [dict(match=om(it.classifier_result.closest_match), closest=[om(m) for m in it.closest_genomes]) for it in items]
+
+	def snapshot():
+		return dict(params=attr.astuple(params), params_types=[type(x).__name__ for x in attr.astuple(params)],
+		            kwargs=copy.deepcopy(kwargs), inputs=list(inputs), labels=list(labels), files=list(sfiles),
+		            item_inputs=copy.deepcopy(qinputs), signatures=_sig_snapshot(sigs))
+
+	out, kept = [], []
+	try:
+		for j, st in enumerate(case['steps']):
+			di, call = st['db'], st['call']
+			db = dbs[di]
+			if st.get('n') is not None:
+				# the caller asks for another N from here on
+				params.report_closest = st['n']
+				kwargs['report_closest'] = st['n']
+			before = snapshot()
+			res, items, rowcopy = None, None, None
+			try:
+				if call == 'params':
+					res = query(db, sigs, params)
+				elif call == 'inputs':
+					res = query(db, sigs, params, inputs=inputs, progress=None)
+				elif call == 'kw':
+					res = query(db, sigs, **kwargs)
+				elif call == 'kwinputs':
+					res = query(db, sigs, None, inputs=inputs, **kwargs)
+				elif call == 'default':
+					res = query(db, sigs)
+				elif call == 'parse':
+					res = query_parse(db, sfiles, params, file_labels=labels, parse_kw=parse_kw)
+				elif call == 'parsekw':
+					res = query_parse(db, sfiles, parse_kw=parse_kw, **kwargs)
+				elif call == 'item':
+					items, m = [], len(case['dbs'][di]['refs'])
+					for qi in range(nq):
+						buf[:m] = np.array(rows[di][qi], dtype=np.uint32).view(np.float32)
+						rowcopy = buf[:m].copy()
+						items.append(get_result_item(db, params, buf[:m], qinputs[qi]))
+						if buf[:m].tobytes() != rowcopy.tobytes():
+							break
+				else:
+					res = cli_outputs(dirs[di], dict(dbarg=st.get('dbarg', '-d'), input='sig', cores=st.get('cores', 1)), [], f'm{j}')
+			except Exception as e:
+				out.append(dict(obs=f'error:{type(e).__name__}: {e}', res=None, mutated=[], held=params.report_closest))
+				continue
+			after = snapshot()
+			mutated = [f'{k}: {before[k]!r} -> {after[k]!r}'[:300] for k in before if before[k] != after[k]]
+			if any(a is not b for a, b in zip(before['inputs'] + before['labels'] + before['files'], after['inputs'] + after['labels'] + after['files'])):
+				mutated.append('inputs / file_labels / files: elements replaced')
+			if rowcopy is not None and buf[:len(rowcopy)].tobytes() != rowcopy.tobytes():
+				mutated.append('distance row passed to get_result_item: overwritten')
+			if call == 'cli':
+				out.append(dict(obs=res, res=None, mutated=mutated, held=params.report_closest))
+				continue
+			if items is None:
+				items = res.items
+			kept.append((j, di, items))
+			out.append(dict(obs=observe(items, di), res=res, mutated=mutated, held=params.report_closest))
+		late = [(j, observe(items, di)) for j, di, items in kept]
+	finally:
+		if hasattr(sigs, 'close'):
+			sigs.close()
+	return out, late
+
+
+def k_multidb(ctx, cases):
+	"""sequences of query() / query_parse() / get_result_item() / `gambit query` calls over several databases of different
+	sizes with the caller's objects shared by all calls; every step is judged on the list the model gives for that step's
+	database and the N the caller set, and the caller's objects must come back unchanged"""
+	import gc
+	import shutil
+	from vf import impl as vimpl
+	for case in cases:
+		check_multidb_case(case)
+		ndb = len(case['dbs'])
+		ns = step_ns(case)
+		need_files = any(st['call'] in ('parse', 'parsekw') for st in case['steps'])
+		q_sig = actual_queries(case, False)
+		q_file = [file_signature(case, i) for i in range(len(case['queries']))] if need_files else None
+		sizes = [len(db['refs']) for db in case['dbs']]
+		dcs = [db_case(case, i) for i in range(ndb)]
+		exp_sig, exp_file = [None] * ndb, [None] * ndb
+		for i in range(ndb):
+			mine = sorted({n for st, n in zip(case['steps'], ns) if st['db'] == i})
+			if mine:
+				exp_sig[i] = model_lists(ctx, dcs[i], q_sig, mine)
+				if need_files:
+					exp_file[i] = model_lists(ctx, dcs[i], q_file, mine)
+		rows = [[[jaccard_bits(q, r[0]) for r in dc['refs']] for q in q_sig] for dc in dcs]
+		used = {st['db'] for st in case['steps']}
+		lo, hi = min(sizes[i] for i in used), max(sizes[i] for i in used)
+		ctx.case(case, nontrivial=len(case['steps']) > 1 and any(lo < n <= hi for n in ns))
+		top = vimpl.scratch_dir('gambit-verif-c09-multi-')
+		dbs = []
+		try:
+			dirs = []
+			for i in range(ndb):
+				d = os.path.join(top, f'db{i}')
+				os.makedirs(d)
+				build_db(dcs[i], d)
+				dirs.append(d)
+			files = write_query_files(case, dirs[0]) if need_files else []
+			for i in range(ndb):
+				dbs.append(open_db(dcs[i], dirs[i]))
+			bad_order = [i for i in range(ndb) if [g.genome.key for g in dbs[i].genomes] != [f'g{x}' for x in range(sizes[i])]]
+			if bad_order:
+				ctx.broke('correspondence multidb (reference order)', f'database #{bad_order[0]}: db.genomes order '
+				          f'{[g.genome.key for g in dbs[bad_order[0]].genomes][:10]}')
+				continue
+			steps, late = impl_multidb(case, dirs, dbs, files, rows)
+			history, bad, mutations = [], False, []
+			for j, (st, n, r) in enumerate(zip(case['steps'], ns, steps)):
+				di, call = st['db'], st['call']
+				parse = call in ('parse', 'parsekw')
+				whose = 'the default, the call names none' if call in ('cli', 'default') else 'as the caller set it'
+				where = (f'step {j} ({call} on database #{di} with {sizes[di]} references, N = {n} ({whose}); the same QueryParams / '
+				         f'keyword dict / inputs / signatures objects were used before on databases with {history or "-"} references)')
+				history.append(sizes[di])
+				obs = r['obs']
+				mutations += [f'step {j} ({call}, database #{di}, {sizes[di]} references): {m}' for m in r['mutated']]
+				if isinstance(obs, str) and obs.startswith('error:'):
+					ctx.broke('correspondence multidb (the call raised / the command failed instead of returning results)',
+					          f'{where}: {obs[6:][:300]}; case {json.dumps(case)[:600]}')
+					bad = True
+					break
+				exp = (exp_file if parse else exp_sig)[di]
+				e_n = None if exp is None else exp[n]
+				descs = [f'genome {x}' for x in range(sizes[di])]
+				if call == 'cli':
+					if judge_cli(ctx, 'multidb', dcs[di], obs, e_n, descs, f' ({where})', report=case):
+						bad = True
+						break
+					continue
+				want = min(n, sizes[di])
+				for qi, o in enumerate(obs):
+					what = None
+					if len(o['closest']) != want:
+						what = (f'closest_genomes lists {len(o["closest"])} genomes, the property requires min(N, number of references) = '
+						        f'min({n}, {sizes[di]}) = {want}' + (f' (after the call the caller\'s QueryParams holds report_closest = {r["held"]})'
+						                                          if call in ('params', 'inputs', 'parse', 'item') else ''))
+					elif o['closest'] and o['closest'][0] != o['match']:
+						what = f'closest_genomes[0] = {o["closest"][0]} but closest_match = {o["match"]}'
+					elif e_n is not None and o != e_n[qi]:
+						what = (f'closest_genomes {[x[0] for x in o["closest"]][:12]} / match {o["match"][0]} is not the (distance, reference '
+						        f'order) prefix with exact distances and taxa; expected {[x[0] for x in e_n[qi]["closest"]][:12]} / match '
+						        f'{e_n[qi]["match"][0]}')
+					if what:
+						ctx.violation('multidb', case, f'query #{qi}, {where}: {what}', impl=o, model=None if e_n is None else e_n[qi],
+						              modified_caller_objects=mutations)
+						bad = True
+						break
+				if bad:
+					break
+				if st.get('export') and r['res'] is not None:
+					if judge_cli(ctx, 'multidb', dcs[di], export_outputs(r['res'], dirs[di], f'm{j}', j % 2 == 1), e_n, descs,
+					             f' (exporters applied to the result of {where})', report=case):
+						bad = True
+						break
+			if bad:
+				continue
+			for j, o in late:
+				if o != steps[j]['obs']:
+					ctx.violation('multidb', case, f'the result returned by step {j} changed after later calls on the same caller objects',
+					              impl=steps[j]['obs'], impl_later=o)
+					bad = True
+					break
+			if not bad and mutations:
+				# every list was right, but a call changed an object that belongs to the caller (the model's inputs are values):
+				# the next use of that object would not ask for what the caller set
+				ctx.broke('correspondence multidb (a call modified an object owned by the caller)', '; '.join(mutations)[:900] +
+				          f'; case {json.dumps(case)[:500]}')
+		finally:
+			for db in dbs:
+				close_db(db)
+			dbs = []
+			gc.collect()
+			shutil.rmtree(top, ignore_errors=True)
 
 
 def qworker():
@@ -1315,7 +1593,7 @@ def k_queryenv(ctx, cases):
 
 
 KINDS = {'row': k_row, 'rowenv': k_rowenv, 'query': k_query, 'rowx': k_rowx, 'rowseq': k_rowseq,
-         'queryx': k_queryx, 'queryenv': k_queryenv}
+         'queryx': k_queryx, 'queryenv': k_queryenv, 'multidb': k_multidb}
 
 
 def setup(ctx):
@@ -1529,6 +1807,57 @@ def gen_queryenv_case(rng, envs):
 	return c
 
 
+def gen_multidb_case(rng):
+	"""2-4 databases over one taxonomy whose sizes lie below, on and above N, visited in ascending / descending /
+	sandwich / interleaved order by calls that all use the caller's one QueryParams, keyword dict, inputs, signatures"""
+	n = rng.choice([1, 2, 3, 3, 4, 5, 5, 8, 10, 10])
+	below = [x for x in {1, n - 3, n - 2, n - 1} if 1 <= x < n]
+	above = [n + 1, n + 2, n + 4, 2 * n + 1, n + 15]
+	sizes = ([rng.choice(below)] if below else [n]) + [rng.choice(above)]
+	for _ in range(rng.choice([0, 1, 1, 2])):
+		sizes.append(rng.choice(below + [n, n] + above + [9, 10, 12]))
+	rng.shuffle(sizes)
+	files = rng.random() < 0.4
+	nq = rng.choice([1, 2, 3]) if files else rng.choice([1, 2, 3, 3, 6])
+	base = gen_query_case(rng, sum(sizes), nq, k=rng.choice([5, 5, 6, 8, 11]))
+	dbs, at = [], 0
+	for m in sizes:
+		order = list(range(m))
+		rng.shuffle(order)
+		db = dict(refs=base['refs'][at:at + m], sqlorder=order, dbform=rng.choice(DBFORMS))
+		if rng.random() < 0.3:
+			# unrelated signatures in the signature file (equal to a query: they would be nearest if taken for references)
+			db['extras'] = [[rng.randint(0, m), list(rng.choice(base['queries']))] for _ in range(rng.randint(1, 2))]
+		dbs.append(db)
+		at += m
+	by_size = sorted(range(len(sizes)), key=lambda i: sizes[i])
+	pattern = rng.choice(['ascending', 'descending', 'sandwich', 'interleaved', 'interleaved'])
+	if pattern == 'ascending':
+		visit = by_size
+	elif pattern == 'descending':
+		visit = by_size[::-1]
+	elif pattern == 'sandwich':
+		visit = [by_size[-1], by_size[0], by_size[-1]] + by_size[1:-1] + [by_size[0]]
+	else:
+		visit = list(range(len(sizes))) + [rng.randrange(len(sizes)) for _ in range(rng.randint(1, 4))]
+		rng.shuffle(visit)
+	calls = ['params'] * 3 + ['inputs'] * 2 + ['item'] * 2 + ['kw', 'kwinputs', 'default'] + (['parse', 'parse', 'parsekw'] if files else [])
+	steps = []
+	for di in visit:
+		st = dict(db=di, call='cli' if rng.random() < 0.06 else rng.choice(calls))
+		if steps and rng.random() < 0.15:
+			st['n'] = rng.choice([1, 2, n, n + 1, sizes[di], sizes[di] + 1, max(1, sizes[di] - 1), 2 ** 40])
+		if st['call'] == 'cli':
+			st['cores'] = rng.choice([0, 1, 2])
+			st['dbarg'] = rng.choice(['-d', 'env'])
+		elif st['call'] != 'item' and rng.random() < 0.25:
+			st['export'] = True
+		steps.append(st)
+	return dict(k=base['k'], n=n, taxa=base['taxa'], queries=base['queries'], dbs=dbs, steps=steps, pattern=pattern,
+	            chunk=rng.choice([None, 1000, 1000, 1, 2, 3, 7, n, max(sizes)]), idattr=rng.choice(IDATTRS),
+	            qform=rng.choice(MQFORMS))
+
+
 def generate(ctx):
 	import itertools
 	rng = ctx.rng
@@ -1602,6 +1931,11 @@ def generate(ctx):
 	for _ in range(ctx.pick(24, 300)):
 		ctx.count('stream:queryx')
 		yield 'queryx', gen_queryx_case(rng)
+	# the caller's objects reused across several databases of different sizes (below / on / above N), in both orders
+	# and interleaved, through query(), query_parse(), get_result_item() and the command
+	for _ in range(ctx.pick(40, 300)):
+		ctx.count('stream:multidb')
+		yield 'multidb', gen_multidb_case(rng)
 	# whole queries (kernel + classification + CLI export) in sub-processes per CPU-dispatch / thread setting
 	for _ in range(ctx.pick(6, 60)):
 		ctx.count('stream:queryenv')
